@@ -684,3 +684,9 @@ _IODF = "estimation/initial_orbit_determination.py"
 _FS_OLD = "        for observation in observations:\n            if observation.range_km:\n                return radarObs2eciPosition(observation)\n\n        return None\n"
 V("c20-n-final-position-mean-of-inverted", "C20", "pass", edits=[(_IODF, _FS_OLD, "        count = 0\n        final_position = None\n        for observation in observations:\n            if observation.range_km:\n                position = radarObs2eciPosition(observation)\n                final_position = position if final_position is None else final_position + position\n                count += 1\n        if final_position is None:\n            return None\n        return final_position / count\n")], note="property-holding (mean over exactly the inverted observations)")
 V("c20-final-position-mean-counter-outside-guard", "C20", "violation", "C20.R3", edits=[(_IODF, _FS_OLD, "        count = 0\n        final_position = None\n        for observation in observations:\n            count += 1\n            if observation.range_km:\n                position = radarObs2eciPosition(observation)\n                final_position = position if final_position is None else final_position + position\n        if final_position is None:\n            return None\n        return final_position / count\n")])
+
+# ------------------------------------------------------------------------------------ C12.R9
+_CV = "physics/orbits/conversions.py"
+_ROT = "    rot_pqw2eci = rot3(-raan).dot(rot1(-inc).dot(rot3(-argp)))\n"
+V("c12-equatorial-shortcut-negated-guard", "C12", "violation", "C12.R9", edits=[(_CV, _ROT, "    if not isInclined(inc):\n        rot_pqw2eci = rot3(-raan - argp)\n    else:\n        rot_pqw2eci = rot3(-raan).dot(rot1(-inc).dot(rot3(-argp)))\n")])
+V("c12-n-equatorial-shortcut-both-ends", "C12", "no-violation", edits=[(_CV, _ROT, "    if isInclined(inc):\n        rot_pqw2eci = rot3(-raan).dot(rot1(-inc).dot(rot3(-argp)))\n    else:\n        rot_pqw2eci = rot3(-raan).dot(rot1(-(0.0 if inc < 1.0 else inc)).dot(rot3(-argp)))\n")], note="right at both ends; outside the R9 algebra: undecided")
